@@ -41,6 +41,10 @@ def signed(v, w):
 PURE_OPS = {'load', 'getelementptr', 'zext', 'trunc', 'sext', 'bitcast', 'ptrtoint', 'inttoptr', 'freeze'}
 
 
+import re as _re
+_ARR = _re.compile(r'^\[(\d+) x i(8|16|32|64)\]$')
+
+
 class Stop(Exception):
     def __init__(self, ins):
         self.ins = ins
@@ -88,6 +92,10 @@ class Region:
         for i in f.all_insts():
             if i.op == 'alloca':
                 vals[i.id] = P_(('alloca', f.name, frame, i.id), 0)
+                # a local array of integers has a known extent: accesses beyond it are reported (stack buffer overflow)
+                mt = _ARR.match(i.ty or '')
+                if mt:
+                    self.mem.setdefault((('alloca', f.name, frame, i.id), 'len'), int(mt.group(1)) * (int(mt.group(2)) // 8))
 
         def val(o):
             k = o[0]
